@@ -52,11 +52,11 @@ def Avp.length (a : Avp) : Nat :=
   (if a.vendor ≠ 0 then 12 else 8) + a.payload.length
 
 /-- `Avp.as_packed`. -/
-def encodeAvp (a : Avp) : R Bytes := do
-  let c ← packUint a.code
-  let l ← packUint (a.length ||| (a.flags <<< 24))
-  let v ← if a.vendor ≠ 0 then packUint a.vendor else pure []
-  pure (c ++ l ++ v ++ packFopaque (pad4 a.payload.length) a.payload)
+def encodeAvp (a : Avp) : R Bytes :=
+  if a.code < 4294967296 ∧ (a.length ||| (a.flags <<< 24)) < 4294967296 ∧ a.vendor < 4294967296 then
+    .ok (be32 a.code ++ be32 (a.length ||| (a.flags <<< 24)) ++
+         (if a.vendor ≠ 0 then be32 a.vendor else []) ++ packFopaque (pad4 a.payload.length) a.payload)
+  else .error .conversion
 
 /-- `Avp.from_unpacker` without the dictionary dispatch: header fields,
     payload, new position. `avp_length` may go non-positive, in which case no
@@ -106,10 +106,13 @@ def decodeAvps (buf : Bytes) (pos : Nat) : R (List Avp) :=
     `Message.as_bytes` do). -/
 def encodeAvps : List Avp → R Bytes
   | [] => .ok []
-  | a :: rest => do
-      let x ← encodeAvp a
-      let y ← encodeAvps rest
-      pure (x ++ y)
+  | a :: rest =>
+    match encodeAvp a with
+    | .error e => .error e
+    | .ok x =>
+      match encodeAvps rest with
+      | .error e => .error e
+      | .ok y => .ok (x ++ y)
 
 /-! ## Values -/
 
